@@ -316,6 +316,9 @@ func (il *inliner) firstCall(e ast.Expr) (call *ast.CallExpr, stop bool) {
 				return nil, false
 			}
 		}
+		if _, _, isCand := il.calleeOf(x); isCand {
+			return x, false // its operands are evaluated, in order, by the expansion itself
+		}
 		if c, stop := il.firstCall(x.Fun); c != nil || stop {
 			return c, stop
 		}
